@@ -598,6 +598,9 @@ class Gen:
                 # firstmatch() asks whether the rest of the line matches: the csvpath's one look-ahead, top level only
                 self.used_onmatch = True
                 return L.fn("firstmatch")
+            if self.anyvars and r.random() < 0.1:
+                # a bare variable that may hold "" or None: the existence test of a variable is 'is not None'
+                return L.var(r.choice(self.anyvars))
             b = self.boolean(0)
             if b["k"] == "term":
                 b = self.href_any()
@@ -691,7 +694,8 @@ class Gen:
 
 
 def make_case(rng, tid, *, groups=("core",), AND=None, max_rows=8, modes=False):
-    fs = L.FileSpec(rng, max_rows=max_rows)
+    # control functions are about what happens around blank records: more of them
+    fs = L.FileSpec(rng, max_rows=max_rows, blank_p=0.22 if "control" in groups else 0.12)
     if AND is None:
         AND = rng.random() < 0.7
     g = Gen(rng, fs, AND=AND, groups=groups)
